@@ -194,7 +194,7 @@ def wrapper_paths(p, deco):
     return w, conn, out
 
 
-def check_wrapper(ctx, deco, rule, zero_iter_ok=False):
+def check_wrapper(ctx, deco, rule, zero_iter_ok=False, count_replies=True):
     """every path through the wrapper either replies exactly once and returns True without calling the wrapped
     function, or calls it without replying and returns its result"""
     p = ctx.p
@@ -208,7 +208,7 @@ def check_wrapper(ctx, deco, rule, zero_iter_ok=False):
         ret_true = out[0] == "return" and isinstance(out[1], ast.Constant) and out[1].value is True
         ret_deleg = out[0] == "return" and out[1] is not None and any(
             isinstance(c, ast.Call) and isinstance(c.func, ast.Name) and c.func.id == p.wrapped_param(deco) for c in ast.walk(out[1]))
-        sig = (len(replies), delegated, ret_true, ret_deleg, out[0])
+        sig = (len(replies) if count_replies else min(len(replies), 1), delegated, ret_true, ret_deleg, out[0])
         if sig in seen:
             continue
         seen.add(sig)
@@ -220,8 +220,8 @@ def check_wrapper(ctx, deco, rule, zero_iter_ok=False):
         else:
             if zero_iter_ok and not replies and out[0] == "fall":
                 continue  # zero-iteration path, excluded by the arity rule
-            ok = len(replies) == 1 and ret_true
-            ctx.ob(rule, last, f"{deco} wrapper: refusing path emits exactly one reply and returns True", ok,
+            ok = (len(replies) == 1 if count_replies else len(replies) >= 1) and ret_true
+            ctx.ob(rule, last, f"{deco} wrapper: refusing path emits " + ("exactly one reply" if count_replies else "a reply") + " and returns True", ok,
                    f"{deco} wrapper path without delegation emits {len(replies)} replies / does not return True",
                    construct=f"{deco}.wrapper:{len(replies)} replies, no delegation, ret_true={ret_true}", function=p.qualname(w))
     return w, conn, paths
@@ -249,3 +249,31 @@ def deco_fields(d):
 
 def is_guard(d, field):
     return d.name == "ConnectionConditions" and field in deco_fields(d)
+
+
+def session_kwargs(p):
+    """keyword -> value node of the session constructor, with a `**self.<attr>` splat resolved through the dict literal / dict(...) assigned
+    to that attribute in Server.__init__ (None values mark keywords whose value the analysis cannot see)"""
+    ctor = p.session_ctor()
+    out = {}
+    for k in ctor.keywords:
+        if k.arg is not None:
+            out[k.arg] = k.value
+            continue
+        v = k.value
+        resolved = None
+        if isinstance(v, ast.Attribute) and isinstance(v.value, ast.Name) and v.value.id == "self":
+            for n in walk_no_nested(p.method("Server", "__init__")):
+                if isinstance(n, ast.Assign) and any(isinstance(t, ast.Attribute) and t.attr == v.attr for t in n.targets):
+                    resolved = n.value
+        if isinstance(resolved, ast.Dict):
+            for kk, vv in zip(resolved.keys, resolved.values):
+                if isinstance(kk, ast.Constant):
+                    out.setdefault(kk.value, vv)
+        elif isinstance(resolved, ast.Call) and isinstance(resolved.func, ast.Name) and resolved.func.id == "dict":
+            for kk in resolved.keywords:
+                if kk.arg:
+                    out.setdefault(kk.arg, kk.value)
+        else:
+            out["**"] = v
+    return out
